@@ -42,7 +42,7 @@ def configs(draw, wrappers=("interval",), allow_cache0=True, allow_dt=True, allo
     wrapper = draw(st.sampled_from(list(wrappers)))
     # mostly windows of size O(1) near the origin; sometimes far from it (|t| ~ 1e3: relative and absolute closeness of two
     # times are then different things)
-    t0 = draw(st.sampled_from([0.0, 0.0, -1.0, -0.5, 0.25, 3.0, 0.0, -1.0, 0.25, 1000.0, -3000.0]))
+    t0 = draw(st.sampled_from([0.0, 0.0, -1.0, -0.5, 0.25, 3.0, 0.0, -1.0, 0.25, 1000.0, -3000.0, 50000.0, -200000.0]))
     span = draw(st.sampled_from([1.0, 1.0, 0.5, 2.0, 10.0]))
     if wrapper == "path":
         span = 1.0
@@ -96,6 +96,13 @@ def configs(draw, wrappers=("interval",), allow_cache0=True, allow_dt=True, allo
     elif wrapper == "path":
         cfg["cache_size"] = None
         cfg["levy"] = "none"
+    # how times are handed over: the constructor's t0/t1 as 0-dim tensors which the caller changes in place afterwards (they
+    # are the caller's), and query times in rotating forms (Python float / 0-dim float64 tensor / numpy float64 / 0-dim
+    # float32 tensor) of exactly the same values - for that, query times are rounded to float32-representable values
+    if wrapper in ("interval", "reverse", "reverse2", "tree"):
+        cfg["t_tensor_mutated"] = draw(_one_in(5))
+    if cfg["tol"] == 0:
+        cfg["time_forms"] = draw(_one_in(5))
     if cfg["tol"] > 0:
         # keep the end points and the grid on the tolerance lattice (the library's rounding grid 10^-ndigits, which is
         # coarser than tol itself when tol is not a power of ten): the property speaks of resolved times
@@ -313,6 +320,13 @@ def expand(case):
             out.append((float(op[1]), float(op[2])))
         else:
             raise ValueError(f"unknown op {op}")
+    if cfg.get("time_forms") and cfg["tol"] == 0:
+        import numpy as _np
+
+        def r32(t):
+            return None if t is None else min(max(float(_np.float32(t)), cfg["t0"]), cfg["t1"])
+        out = [(r32(a), r32(b)) for a, b in out]
+        out = [(a, b) for a, b in out if a is None or a <= b]
     return out
 
 
@@ -329,7 +343,9 @@ def build(cfg, torchsde, torch):
         H = torch.randn(shape, dtype=dtype, generator=g) * math.sqrt(span / 12)
     wrapper = cfg["wrapper"]
     if wrapper in ("interval", "reverse", "reverse2"):
-        kw = dict(t0=cfg["t0"], t1=cfg["t1"], size=shape, dtype=dtype, entropy=cfg["entropy"],
+        tt = torch.tensor([cfg["t0"], cfg["t1"]], dtype=torch.float64)
+        t0_arg, t1_arg = (tt[0], tt[1]) if cfg.get("t_tensor_mutated") else (cfg["t0"], cfg["t1"])
+        kw = dict(t0=t0_arg, t1=t1_arg, size=shape, dtype=dtype, entropy=cfg["entropy"],
                   cache_size=cfg["cache_size"], levy_area_approximation="".join(list(cfg["levy"])), tol=cfg["tol"],
                   halfway_tree=cfg["halfway"], W=None if W is None else W.clone(), H=None if H is None else H.clone())
         if cfg["dt"] is not None:
@@ -339,6 +355,8 @@ def build(cfg, torchsde, torch):
         if "pool_size" in cfg:
             kw["pool_size"] = cfg["pool_size"]
         interval = torchsde.BrownianInterval(**kw)
+        if cfg.get("t_tensor_mutated"):
+            tt += 0.37            # the caller goes on using its own time tensor
         base = interval
         if wrapper == "reverse":
             rev = torchsde._brownian.ReverseBrownian(interval)
@@ -357,8 +375,12 @@ def build(cfg, torchsde, torch):
         w1 = (w0 + W) if W is not None else None
         if W is not None:
             W = w1 - w0          # the increment the caller actually supplied (w1 - w0 in floating point)
-        obj = torchsde.BrownianTree(t0=cfg["t0"], w0=w0.clone(), t1=cfg["t1"], w1=None if w1 is None else w1.clone(),
+        tt = torch.tensor([cfg["t0"], cfg["t1"]], dtype=torch.float64)
+        t0_arg, t1_arg = (tt[0], tt[1]) if cfg.get("t_tensor_mutated") else (cfg["t0"], cfg["t1"])
+        obj = torchsde.BrownianTree(t0=t0_arg, w0=w0.clone(), t1=t1_arg, w1=None if w1 is None else w1.clone(),
                                     entropy=cfg["entropy"], tol=cfg["tol"])
+        if cfg.get("t_tensor_mutated"):
+            tt += 0.37
         interval = obj._interval
         base = obj
     else:
@@ -377,24 +399,50 @@ def build(cfg, torchsde, torch):
             out.append(c)
         return out
 
+    forms = cfg.get("time_forms") and cfg["tol"] == 0
+    ncall = [0]
+
+    def form(t):
+        """The same time value in another representation (all exact: query times were rounded to float32 values)."""
+        if not forms or t is None:
+            return t
+        k = ncall[0] % 4
+        if k == 1:
+            return torch.tensor(t, dtype=torch.float64)
+        if k == 2:
+            import numpy as _np
+            return _np.float64(t)
+        if k == 3:
+            t32 = torch.tensor(t, dtype=torch.float32)
+            return t32 if float(t32) == t else torch.tensor(t, dtype=torch.float64)
+        return t
+
     def bm(ta, tb):
+        ncall[0] += 1
+        key_a, key_b = ta, tb
+        ta, tb = form(ta), form(tb)
         # every tensor is cloned before the harness keeps it: a returned tensor may be (and for single-node queries is) the
         # very object the Brownian tree holds, and a reference to it would silently follow any later in-place change. The
         # reference is kept too (meta["handed_out"]): a tensor handed to the caller must not change afterwards either.
         if ta is None:
             # point evaluation
             if wrapper in ("reverse", "reverse2"):
-                return keep((ta, tb), interval(cfg["t0"], tb))[0], None, None
-            return keep((ta, tb), base(tb))[0], None, None
+                return keep((key_a, key_b), interval(cfg["t0"], tb))[0], None, None
+            return keep((key_a, key_b), base(tb))[0], None, None
         if have_A:
-            w, u, a = keep((ta, tb), *base(ta, tb, return_U=True, return_A=True))
+            w, u, a = keep((key_a, key_b), *base(ta, tb, return_U=True, return_A=True))
             return w, u, a
         if have_H:
-            w, u = keep((ta, tb), *base(ta, tb, return_U=True))
+            w, u = keep((key_a, key_b), *base(ta, tb, return_U=True))
             return w, u, None
-        return keep((ta, tb), base(ta, tb))[0], None, None
+        return keep((key_a, key_b), base(ta, tb))[0], None, None
 
-    meta = {"have_H": have_H, "have_A": have_A, "W": W, "H": H, "base": base,
+    def mutate_again():
+        """The caller changes its own time tensor once more (mid-history)."""
+        if cfg.get("t_tensor_mutated") and wrapper in ("interval", "reverse", "reverse2", "tree"):
+            tt.sub_(0.21)
+
+    meta = {"have_H": have_H, "have_A": have_A, "W": W, "H": H, "base": base, "mutate_again": mutate_again,
             "w0": w0 if wrapper in ("path", "tree") else None, "handed_out": handed}
     return bm, interval, meta
 
